@@ -189,6 +189,7 @@ def run(ctx):
                     ctx.faults["represent"] += 1
                 n0 = len(ex.log)
                 c0 = ex.evaluator.number_of_evaluations()
+                ex.mark = (c0, n0)
                 armed = hist.get("fault_call") == ci and call["via"] in ("evaluator", "tracker")
                 if armed:
                     # the caller catches the exception of its own fitness function and goes on using the same individuals
@@ -240,7 +241,20 @@ def run(ctx):
                     elif call["via"] in ("tracker", "population"):
                         if pi not in trackers:
                             T = SingleObjectiveProgressTracker if isinstance(problem, SingleObjectiveProblem) else MultiObjectiveProgressTracker
-                            trackers[pi] = T(problem, ex.evaluator)
+
+                            class CountAtRegistration:
+                                """a recorder that reads the evaluation counter while an individual is being registered"""
+
+                                def register(self, tracker, individual, problem, is_best, __mode=mode):
+                                    c_mark, n_mark = ex.mark
+                                    counted_now = tracker.get_number_evaluations() - c_mark
+                                    invoked_now = len(ex.log) - n_mark
+                                    if counted_now != invoked_now and not ctx.violations:
+                                        ctx.violate(f"C13/counter/{__mode}/at-registration/{'under' if counted_now < invoked_now else 'over'}",
+                                                    f"{__mode}: while an individual was being registered the evaluation counter had advanced by {counted_now}, "
+                                                    f"the fitness function had been invoked {invoked_now} times in this call")
+
+                            trackers[pi] = T(problem, ex.evaluator, recorders=[CountAtRegistration()])
                         if call["via"] == "tracker":
                             trackers[pi].evaluate(members)
                         else:
